@@ -78,6 +78,11 @@ func VerifC09ForUpdateHoldsAll() {
 		"select a.n from (a inner join b on a.n < b.n) for update",       // the join written in parentheses
 		"select a.n from (a cross join b) left join a as c on c.n = a.n for update",
 		"select a.n from (a), (b) for update",
+		"(select n from b) union all select n from a for update", // operands written in parentheses
+		"select n from a union all (select n from b) for update",
+		"(select n from a) union (select n from b) for update",
+		"select n from a intersect select n from b for update",
+		"select n from b except (select n from a) for update",
 	}
 	qi := verifChoice("query", len(src))
 	tx := verifNewTx()
